@@ -237,4 +237,35 @@ def applyFullSeq (save : Option (SaveBlock α)) (D : FullData α) (cols : List (
     r.1 :: applyFullSeq r.2 D cols rest
 
 end
+/-! ### the forms of `rfmodes`
+
+`apply_uf` starts with `rfmodes = np.atleast_1d(rfmodes)` and, for a boolean array,
+`rfmodes = rfmodes.nonzero()[0]`; everything below it works with the index array. -/
+
+/-- `rfmodes` as the caller passes it: `None`, one integer, an index array or a boolean mask over the
+`n` modes -/
+inductive RfArg where
+  | none
+  | scalar (i : Nat)
+  | index (l : List Nat)
+  | mask (b : List Bool)
+deriving Repr, DecidableEq
+
+/-- `b.nonzero()[0]`: the positions of the `True` entries in increasing order -/
+def nonzero (b : List Bool) : List Nat :=
+  b.zipIdx.filterMap fun p => if p.1 then some p.2 else none
+
+/-- the index array the routine works with -/
+def normRf : RfArg → List Nat
+  | .none => []
+  | .scalar i => [i]
+  | .index l => l
+  | .mask b => nonzero b
+
+/-- `DR_Event.apply_uf(sol, m, b, k, nrb, rfmodes)` with `rfmodes` in any of its forms: one fresh
+cache shared by all `uf_reds` tuples -/
+def applyFullArg {α : Type} [Add α] [Mul α] [Neg α] [Zero α] (D : FullData α) (rfa : RfArg)
+    (cols : List (FullCol α)) (ufs : List (Uf α)) : List (List (FullOut α)) :=
+  applyFullSeq none { D with rf := normRf rfa } cols ufs
+
 end PyYetiVerif.ApplyUfFull
